@@ -216,7 +216,7 @@ def case_store(ctx, inp):
         shared = bool(inp.get("shared_target")) and len(tgts) > 0
         t = tgts[0] if shared else np.full(s["tshape"], -1)
         tgts.append(t)
-        r = None if s["region"] is None else tuple(_sl(x) for x in s["region"])
+        r = None if s["region"] is None else tuple(_sl(x) if isinstance(x, list) else int(x) for x in s["region"])
         regs.append(r)
         e = exps[0] if shared else np.full(s["tshape"], -1)
         e[r if r is not None else tuple(slice(0, n) for n in shape)] = a
@@ -292,6 +292,10 @@ def case_store(ctx, inp):
         ctx.branch("store-return-stored")
     if inp["delayed_target"]:
         ctx.branch("store-delayed-target")
+    if any(r is not None and any(isinstance(x, int) for x in r) for r in regs):
+        ctx.branch("store-integer-in-region")
+    if any(not s["chunks"] for s in inp["sources"]):
+        ctx.branch("store-0d-source")
 
 
 def case_bigstore(ctx, inp):
@@ -534,6 +538,26 @@ def generate(ctx):
                         "compute": rng.random() < 0.6, "return_stored": rng.random() < 0.4,
                         "scheduler": rng.choice(["sync", "sync", "threads"]), "delayed_target": rng.random() < 0.15,
                         "one_region_for_all": one}
+    # regions with an integer entry (a source of lower rank stored into a row / plane of the target); 0-d sources
+    for _ in range(ctx.n(24, 300)):
+        nd = rng.randint(0, 2)
+        shape = [rng.randint(1, 4) for _ in range(nd)]
+        chunks = [list(random_chunks(rng, n, zeros=0.1)) for n in shape]
+        region, tshape = [], []
+        for n in shape:
+            r, t = _rand_region(rng, n)
+            region.append(r)
+            tshape.append(t)
+        k = rng.randint(0 if nd else 0, 2) if nd else rng.randint(0, 2)
+        for _i in range(k):
+            pos = rng.randint(0, len(region))
+            tl = rng.randint(1, 4)
+            region.insert(pos, rng.randrange(tl))
+            tshape.insert(pos, tl)
+        src = {"chunks": chunks, "region": region if region else None, "tshape": tshape}
+        yield "store", {"same_source": None, "sources": [src], "single": True, "lock": rng.choice(["true", "false", "lock"]),
+                        "compute": rng.random() < 0.6, "return_stored": rng.random() < 0.4,
+                        "scheduler": rng.choice(["sync", "threads"]), "delayed_target": False, "one_region_for_all": False}
     # one target, several pairwise disjoint regions: the same source (same object / an equal one) or different sources
     for _ in range(ctx.n(30, 400)):
         k = rng.choice([2, 2, 3])
